@@ -161,6 +161,51 @@ def size_case(ctx, size):
 
 
 # ---------------------------------------------------------------- (B) key path
+def subset_case(ctx, which):
+    """every subset of the eight sigfields x three flag patterns: the key-spend builder signs, and the key path
+    accepts, exactly the message made of the present, non-excluded fields; a covered field that changes is refused"""
+    seed = ctx.seed
+    ks = env.sym(seed, 'c5.K0')
+    pub = refed.public_key(ks)
+    s = committed_script(7)
+    root, t = ref_root(pub, s)
+    sf = sigfields(seed, which)
+    lock = T.make_taproot_lock(pub, T.Script.from_bytes(s), sigflags='ff').bytes
+    n = 0
+    for flag in (0x00, 0x55, 0xaa):
+        n += 1
+        ctx.state(('subset', which, flag))
+        flhex = '%02x' % flag
+        m = msg(sf, flag)
+        try:
+            w = T.make_taproot_witness_keyspend(ks, dict(sf), T.Script.from_bytes(s), sigflags=flhex).bytes
+        except BaseException as e:
+            ctx.violation({'clause': 'key-spend builder runs', 'flag': 'any', 'fields': 'sparse'}, f'fields {which} flag {flhex}: {e!r}')
+            continue
+        sig = w[2:2 + w[1]]
+        if not refed.verify_strict(root, m, sig[:64]):
+            ctx.violation({'clause': 'key-spend witness is a signature under the root over the flag-selected message', 'fields': 'sparse'},
+                          f'fields {which} flag {flhex}: {sig.hex()}')
+        v, log = run_auth([w, lock], sf)
+        ctx.ran()
+        ctx.trans(2)
+        ctx.outcome('subset:%s' % v)
+        if v is not True or log != []:
+            ctx.violation({'clause': 'key path succeeds exactly with a valid signature and permitted flags', 'kind': 'rejects',
+                           'fields': 'sparse'}, f'fields {which} flag {flhex}: {v!r} {log}')
+        for i in which:
+            covered = not flag >> (i - 1) & 1
+            sf2 = dict(sf)
+            sf2['sigfield%d' % i] = sf2['sigfield%d' % i][:-1] + bytes([sf2['sigfield%d' % i][-1] ^ 1])
+            v2, _ = run_auth([w, lock], sf2)
+            ctx.ran()
+            if v2 is not (not covered):
+                ctx.violation({'clause': 'key path succeeds exactly with a valid signature and permitted flags',
+                               'kind': 'accepts' if v2 is True else 'rejects', 'fields': 'sparse'},
+                              f'fields {which} flag {flhex}: sigfield{i} changed ({"covered" if covered else "excluded"}): {v2!r}')
+    ctx.evaluations += n - 1
+
+
 def key_case(ctx, case):
     k, which, part = case
     seed = ctx.seed
@@ -350,6 +395,9 @@ def blocks(tier, seed):
               'committed script lengths on both sides of 2^7, 2^8, 2^9, 2^10', nshards=16),
         Block('B_key_path', keycases, key_case, 'all flag values x allowed masks {00, ff, flag, ~flag} x sigfield sets; all signature / root bit flips',
               nshards=len(keycases)),
+        Block('B2_sigfield_subsets', [tuple(i + 1 for i in range(8) if b >> i & 1) for b in range(256)], subset_case,
+              'all 256 subsets of the eight sigfields x flags {00, 55, aa}: builder signature, key-path verdict, every present field changed',
+              nshards=64),
         Block('C_script_path_corruptions', list(range(4 if q else 8)), script_case,
               'every byte of script and key flipped, other keys/scripts, root flips, point-subtraction attack', nshards=8),
         Block('E_native_vs_nonnative', lambda s, n: spaces.progs_upto(2 if q else 3, 'wit', s, n), equiv_case,
